@@ -10,6 +10,7 @@
 //   vps  N= D= X= k= rnd= q=           -> items= tree= r=q:i@d,i@d;..  tsne::VpTree create + search
 //   exg  N= D= P= Y=                   -> dC=<N*D>                     computeExactGradient
 //   bhg  N= D= row= col= val= Y= theta= -> dC=<N*D>                    computeGradient
+//   run  N= D= X= perp= theta= dim= g= at= -> snaps=it/C/Y;... Y=     TSNE::run observed through its progress log
 //   (the public-API smoke cases live in c17_api.cpp: tapkee.hpp is slow to compile)
 #include <algorithm>
 #include <cfloat>
@@ -34,8 +35,12 @@ static double vh_uniform()
     return std::ldexp((double)(m % 1048576), -20);
 }
 static unsigned long long vh_gs = 88172645463325252ULL;
+static std::vector<double> vh_gvals; // replayed stream of gaussian_random() values (`g=` of a `run` case)
+static size_t vh_gpos = 0;
 static double vh_gauss()
 {
+    if (!vh_gvals.empty())
+        return vh_gvals[vh_gpos++ % vh_gvals.size()];
     // sum of 12 uniforms - 6 (xorshift64): deterministic stand-in for gaussian_random()
     double s = 0;
     for (int i = 0; i < 12; i++)
@@ -85,6 +90,38 @@ struct tapkee_verif_access
     {
         t.computeGradient(NULL, r, c, v, Y, N, D, dC, theta);
     }
+};
+
+// `run` logs "Iteration <i>: error is <C>" every 50 iterations (fmt prints the shortest text that reads back as the same
+// double): the one channel through which the state of the real run() is visible from outside.  The logger records the
+// value and a snapshot of the map at the requested iterations.
+struct capture_logger : tapkee::LoggerImplementation
+{
+    const double* Y = nullptr;
+    size_t ny = 0;
+    std::vector<long> wanted;
+    std::ostringstream snaps;
+    bool first = true;
+    void message_info(const std::string& msg)
+    {
+        const char* pre = "Iteration ";
+        if (msg.compare(0, strlen(pre), pre) != 0)
+            return;
+        size_t colon = msg.find(':');
+        long it = std::stol(msg.substr(strlen(pre), colon - strlen(pre)));
+        if (std::find(wanted.begin(), wanted.end(), it) == wanted.end())
+            return;
+        size_t pos = msg.find("error is ");
+        double C = std::strtod(msg.c_str() + pos + 9, nullptr);
+        snaps << (first ? "" : ";") << it << "/" << vh::num(C) << "/";
+        for (size_t i = 0; i < ny; i++)
+            snaps << (i ? "," : "") << vh::num(Y[i]);
+        first = false;
+    }
+    void message_warning(const std::string&) {}
+    void message_debug(const std::string&) {}
+    void message_error(const std::string&) {}
+    void message_benchmark(const std::string&) {}
 };
 
 static std::string nums(const double* p, size_t n)
@@ -231,6 +268,35 @@ int main()
                 for (size_t i = 0; i < res.size(); i++)
                     out << (i ? "," : "") << res[i].index() << "@" << vh::num(dist[i]);
             }
+        }
+        else if (topic == "run")
+        {
+            // the real TSNE::run (public), observed through its own progress log
+            std::vector<double> X = vh::parse_nums(f["X"]);
+            int dim = std::stoi(f["dim"]);
+            vh_gvals = vh::parse_nums(f["g"]);
+            vh_gpos = 0;
+            tapkee::DenseMatrix Xm(D, N); // run() reads X.data()[n*D + d]
+            for (size_t i = 0; i < X.size(); i++)
+                Xm.data()[i] = X[i];
+            std::unique_ptr<double[]> Y(new double[(size_t)N * dim]);
+            static capture_logger* lg = nullptr; // owned by the Logging singleton once installed
+            if (!lg)
+            {
+                lg = new capture_logger();
+                tapkee::Logging::instance().set_logger_impl(lg);
+            }
+            lg->Y = Y.get();
+            lg->ny = (size_t)N * dim;
+            lg->wanted = vh::parse_ints(f["at"]);
+            lg->snaps.str("");
+            lg->first = true;
+            tapkee::Logging::instance().enable_info();
+            t.run(Xm, N, D, Y.get(), dim, vh::parse_num(f["perp"]), vh::parse_num(f["theta"]));
+            tapkee::Logging::instance().disable_info();
+            out << "snaps=" << lg->snaps.str() << " Y=" << nums(Y.get(), (size_t)N * dim);
+            lg->Y = nullptr;
+            vh_gvals.clear();
         }
         else if (topic == "exg")
         {
